@@ -54,7 +54,7 @@ Print Assumptions C10_noop_load_shadow.
 Example C10_noop_shadow_example :
   let sh := [([107], be64 5 ++ be64 3 ++ [0;0;0;0;0;0;0;0] ++ [118])] in
   let e := mkEnv [(shadow_prefix ++ [97], mkDbi 0 sh); ([97], mkDbi 0 [([107], [118])])] 4 in
-  load_txn (mkICfg false false false false false) e
+  load_txn (mkICfg false false false false false []) e
     (mkSnap 3 1 [mkSDbi [97] 0 [] [mkKV [107] [119] 3 0]]) 4 1000 0 = Ok (e, 5, false).
 Proof. vm_compute. reflexivity. Qed.
 
@@ -107,6 +107,6 @@ Qed.
 
 Example C10_example :
   let e := mkEnv [([97], mkDbi 0 [([107], be64 9 ++ be64 3 ++ [0;0;0;0;0;0;0;0] ++ [118])])] 3 in
-  load_txn (mkICfg true true false false false) e (mkSnap 3 1 [mkSDbi [97] 0 [] [mkKV [107] [119] 8 0]]) 3 1000 0
+  load_txn (mkICfg true true false false false []) e (mkSnap 3 1 [mkSDbi [97] 0 [] [mkKV [107] [119] 8 0]]) 3 1000 0
   = Ok (e, 4, false).
 Proof. vm_compute. reflexivity. Qed.
